@@ -643,3 +643,11 @@ mod test {
         assert_eq!(dst[..133], *b"\"this is a long string that should be \\\\\\\"quoted and escaped multiple times to test the performance and correctness of the function.\"");
     }
 }
+
+/// Verification hooks (only with `--cfg sonic_rs_verif`)
+#[cfg(sonic_rs_verif)]
+pub mod verif_hooks {
+    pub fn need_escaped() -> &'static [u8; 256] {
+        &super::NEED_ESCAPED
+    }
+}
